@@ -93,20 +93,21 @@ impl Pty {
 static PORT_SEQ: AtomicU32 = AtomicU32::new(0);
 
 /// a stable path (symlink) that can point to a pty slave, or to nothing
-struct PortPath(String);
+pub struct PortPath(pub String);
 
 impl PortPath {
-    fn new() -> Self {
+    pub fn new() -> Self {
         let n = PORT_SEQ.fetch_add(1, Ordering::SeqCst);
         let p = format!("/tmp/mc-pty-{}-{}", std::process::id(), n);
         let _ = std::fs::remove_file(&p);
         PortPath(p)
     }
-    fn point_to(&self, target: &str) {
+    pub fn point_to(&self, target: &str) {
         let _ = std::fs::remove_file(&self.0);
         let _ = std::os::unix::fs::symlink(target, &self.0);
     }
-    fn unlink(&self) {
+    #[allow(dead_code)]
+    pub fn unlink(&self) {
         let _ = std::fs::remove_file(&self.0);
     }
 }
